@@ -663,7 +663,7 @@ Proof.
     + match type of H with (if ?b then _ else _) = _ => destruct b end; [injection H as <-; reflexivity|discriminate].
     + destruct (observed_yiaddr f) as [y|]; [|discriminate].
       destruct (negb (frame_eqb f (reply_lease c gf_dhcpmsg_MsgTypeOffer m y))); [discriminate|].
-      destruct (of_t f <? r_t r)%Z; [discriminate|].
+      destruct ((of_t f <? r_t r)%Z || (reply_deadline c r <? of_t f)%Z); [discriminate|].
       match type of H with (if ?b then _ else _) = _ => destruct b end; [|discriminate].
       cbn [t_final t_step]. replace (now + (of_t f - now))%Z with (of_t f) by lia.
       destruct (t_hold_client (c_db c) (of_t f) (Some y) (get_duid c (d_chaddr m) (o_cid o)) hold_ns t) as [ok t1].
@@ -682,7 +682,7 @@ Proof.
     destruct free; cbn [negb] in *.
     + destruct (r_outs r) as [|f [|? ?]]; try discriminate.
       destruct (negb (frame_eqb f (reply_lease c gf_dhcpmsg_MsgTypeAck m lease))); [discriminate|].
-      destruct (of_t f <? r_t r)%Z; [discriminate|].
+      destruct ((of_t f <? r_t r)%Z || (reply_deadline c r <? of_t f)%Z); [discriminate|].
       cbn [t_final t_step]. replace (now + (r_t r - now))%Z with (r_t r) by lia. rewrite Eh.
       replace (r_t r + (of_t f - r_t r))%Z with (of_t f) by lia.
       destruct (t_update_client (c_db c) (of_t f) (Some lease) (get_duid c (d_chaddr m) (o_cid o)) (c_lease c) t1) as [ok t2].
@@ -793,7 +793,7 @@ Proof.
   destruct (probe_outcome (r_arp r) (d_chaddr m) lease) as [free cost].
   destruct free; cbn [negb] in H; [|discriminate].
   destruct (frame_eqb f (reply_lease c gf_dhcpmsg_MsgTypeAck m lease)) eqn:Ef; cbn [negb] in H; [|discriminate].
-  destruct (of_t f <? r_t r)%Z eqn:Et; [discriminate|].
+  destruct ((of_t f <? r_t r)%Z || (reply_deadline c r <? of_t f)%Z) eqn:Et; [discriminate|].
   destruct (t_update_client (c_db c) (of_t f) (Some lease) duid (c_lease c) t1) as [ok t2] eqn:Eu.
   destruct ok; [|discriminate]. injection H as <-.
   assert (U1 : unique_live (of_t f) t1).
